@@ -819,3 +819,299 @@ pub fn replay_spec(spec: &'static MbSpec, part: &str, input: &Value) -> Option<R
         _ => None,
     }
 }
+
+// ------------------------------------------------------------------------------------- C02
+fn c02_build(cfg: &[u16]) -> Built {
+    let mut s = S::new(cfg);
+    s.raw();
+    let users = 1 + s.pick(3);
+    let mut c = CfgSpec::default();
+    let mut prof = Profile::base().with(&[
+        (K::RawConnect, 8),
+        (K::RegLine, 40),
+        (K::DropUnreg, 10),
+        (K::Nick, 12),
+        (K::Join, 6),
+        (K::Privmsg, 6),
+        (K::Quit, 3),
+        (K::Drop, 5),
+        (K::Part, 2),
+        (K::Away, 2),
+        (K::ModeUser, 2),
+        (K::Kick, 2),
+    ]);
+    // few nicks, many connections
+    let k = 2 + s.pick(2);
+    prof.nicks = (0..k).map(|i| format!("n{}", i)).collect();
+    prof.reg_nicks = prof.nicks.clone();
+    prof.max_conns = 4 + s.pick(3);
+    if s.chance(30) {
+        c.password = Some("srvpass".into());
+        prof.reg_passwords = vec!["srvpass".into(), "srvpass".into(), "wrongpass".into()];
+    }
+    if s.chance(25) {
+        c.users.push(crate::cfgspec::UserSpec {
+            name: "cfgu".into(),
+            nick: "cfgnick".into(),
+            password: if s.chance(50) { Some("userpass".into()) } else { None },
+            mask: [None, Some("*!*@10.0.0.*".to_string()), Some("*!*@10.0.0.2".to_string()), Some("n0!*@*".to_string())][s.pick(4)].clone(),
+        });
+        prof.reg_usernames.push("cfgu".into());
+        prof.reg_passwords.push("userpass".into());
+        prof.reg_passwords.push("srvpass".into());
+    }
+    let mut setup = vec![];
+    if s.chance(60) {
+        setup.push(("n0".into(), "JOIN #c0".into()));
+    }
+    Built { cfg: c, prof, prelude_users: users.min(k), setup }
+}
+
+// C02 owns everything observable around registration contention: acceptance/refusal of nicks,
+// the absence of any effect of refused / unfinished connections (probes), the attribution of
+// relayed lines, and the survival of the legitimate owners.
+fn c02_owns(d: &Disc, out: &StepOut) -> bool {
+    let reg_ctx = ["REGLINE", "CONNECT", "CLOSEUNREG", "NICK", "NEWUSER"].contains(&out.ctx.as_str());
+    match d {
+        Disc::Panic { .. } | Disc::UnexpectedClose { .. } => true,
+        Disc::Framing { .. } | Disc::Malformed { .. } => false,
+        Disc::Missing { line, .. } | Disc::Extra { line, .. } => {
+            if line[0] != "S" {
+                // relayed lines: wrong attribution or effects of a connection that is not registered
+                return reg_ctx || out.actor.map_or(false, |_| true) && out.ctx != "FINAL";
+            }
+            reg_ctx && ["001", "433", "451", "303", "311", "318", "353", "352", "319", "251", "255", "265", "266", "302", "401"].contains(&line[1].as_str())
+        }
+        _ => reg_ctx,
+    }
+}
+
+fn c02_nontrivial(t: &Trace) -> Option<String> {
+    let late433 = t.count_prefix("reg:nick-taken-at-completion");
+    let inuse = t.count_prefix("nick:in-use");
+    let gated = t.count_prefix("gated");
+    let welcome = t.count_prefix("reg:welcome");
+    let badpw = t.count_prefix("reg:bad-password");
+    let mask = t.count_prefix("reg:mask-mismatch");
+    if (late433 + inuse >= 1 && welcome >= 2) || (late433 >= 1) {
+        Some(format!(
+            "l{}u{}g{}w{}p{}m{}",
+            late433.min(3),
+            inuse.min(3),
+            (gated > 0) as u8,
+            welcome.min(5),
+            badpw.min(2),
+            mask.min(2)
+        ))
+    } else {
+        None
+    }
+}
+
+pub const C02: MbSpec = MbSpec {
+    id: "C02",
+    ncfg: 16,
+    max_ops: 40,
+    build: c02_build,
+    owns: c02_owns,
+    probe_level: 1,
+    nontrivial: c02_nontrivial,
+    extra: None,
+};
+
+// ------------------------------------------------------------------------------------- C03
+pub fn c03_config(k: usize) -> (CfgSpec, Vec<String>, Vec<String>) {
+    // (config, passwords to try, usernames to try)
+    let mut c = CfgSpec::default();
+    c.opers.push(OperSpec { name: "op0".into(), password: "operpw0".into(), mask: None });
+    let mut pw = vec!["otherpass".to_string()];
+    let mut un = vec![];
+    let user = |password: Option<&str>, mask: Option<&str>| crate::cfgspec::UserSpec {
+        name: "cfgu".into(),
+        nick: "cfgnick".into(),
+        password: password.map(|s| s.to_string()),
+        mask: mask.map(|s| s.to_string()),
+    };
+    match k % 8 {
+        0 => {}
+        1 => {
+            c.password = Some("srvpass".into());
+            pw.push("srvpass".into());
+        }
+        2 => {
+            c.users.push(user(None, None));
+            un.push("cfgu".into());
+        }
+        3 => {
+            c.users.push(user(Some("userpass"), None));
+            un.push("cfgu".into());
+            pw.push("userpass".into());
+        }
+        4 => {
+            c.password = Some("srvpass".into());
+            c.users.push(user(Some("userpass"), None));
+            un.push("cfgu".into());
+            pw.push("userpass".into());
+            pw.push("srvpass".into());
+        }
+        5 => {
+            c.users.push(user(None, Some("*!*@192.168.*")));
+            un.push("cfgu".into());
+        }
+        6 => {
+            c.users.push(user(Some("userpass"), Some("*!~cfgu@10.0.0.*")));
+            un.push("cfgu".into());
+            pw.push("userpass".into());
+        }
+        _ => {
+            c.password = Some("srvpass".into());
+            c.users.push(user(None, Some("n1!*@*")));
+            un.push("cfgu".into());
+            pw.push("srvpass".into());
+        }
+    }
+    (c, pw, un)
+}
+
+fn c03_build(cfg: &[u16]) -> Built {
+    let mut s = S::new(cfg);
+    s.raw();
+    let (c, pw, un) = c03_config(s.pick(8));
+    let mut prof = Profile::base().with(&[
+        (K::RegLine, 70),
+        (K::RawConnect, 6),
+        (K::DropUnreg, 5),
+        (K::Privmsg, 4),
+        (K::Join, 4),
+        (K::Nick, 4),
+        (K::Lusers, 3),
+        (K::Quit, 2),
+    ]);
+    prof.nicks = (0..4).map(|i| format!("n{}", i)).collect();
+    prof.reg_passwords = pw;
+    prof.reg_usernames = un;
+    prof.max_conns = 4;
+    // the observer n0 registers in the prelude (with whatever password the config needs)
+    Built { cfg: c, prof, prelude_users: 1, setup: vec![("n0".into(), "JOIN #c0".into())] }
+}
+
+fn c03_owns(d: &Disc, out: &StepOut) -> bool {
+    let reg_ctx = ["REGLINE", "CONNECT", "CLOSEUNREG", "NEWUSER", "PRELUDE"].contains(&out.ctx.as_str());
+    reg_ctx && !matches!(d, Disc::Framing { .. } | Disc::Malformed { .. })
+}
+
+fn c03_nontrivial(t: &Trace) -> Option<String> {
+    let gated = t.count_prefix("gated");
+    let outcomes = [("reg:welcome", 'w'), ("reg:bad-password", 'p'), ("reg:mask-mismatch", 'm'), ("reg:nick-taken", 't'), ("nick:in-use", 'u')]
+        .iter()
+        .filter(|(p, _)| t.has(p))
+        .map(|(_, c)| *c)
+        .collect::<String>();
+    if gated >= 2 || outcomes.contains('p') || outcomes.contains('m') {
+        Some(format!("g{}|{}", gated.min(4), outcomes))
+    } else {
+        None
+    }
+}
+
+pub const C03: MbSpec = MbSpec {
+    id: "C03",
+    ncfg: 8,
+    max_ops: 24,
+    build: c03_build,
+    owns: c03_owns,
+    probe_level: 1,
+    nontrivial: c03_nontrivial,
+    extra: None,
+};
+
+// small-scope exhaustive registration sequences (C03): all sequences of length <= L over an
+// 8-symbol alphabet on one fresh connection, per configuration class
+pub const C03_ALPHA: &[&str] = &["PASS {right}", "PASS wrongpass", "NICK n1", "USER {user} 0 * :Some One", "CAP LS 302", "CAP END", "PRIVMSG n0 :let me in", "JOIN #c0"];
+
+#[derive(Clone, Debug, serde_derive::Serialize, serde_derive::Deserialize)]
+pub struct SeqCase {
+    pub config: usize,
+    pub seq: Vec<usize>,
+}
+
+pub fn c03_seq_case(c: &SeqCase, st: &mut Stats) -> Result<(), Viol> {
+    let (cfg, pw, un) = c03_config(c.config);
+    let right = pw.last().cloned().unwrap_or_else(|| "nopass".into());
+    let user = un.get(0).cloned().unwrap_or_else(|| "u1".into());
+    let mut eng = crate::engine::Engine::new(&cfg, c.config as u64);
+    let pol = Policy { id: "C03", owns: &|d: &Disc, _o: &StepOut| !matches!(d, Disc::Framing { .. } | Disc::Malformed { .. }) };
+    let (_, outs) = eng.register("n0", "u0");
+    for o in outs {
+        if let Verdict::Violation(v) = judge(&pol, &eng, &o) {
+            return Err(v);
+        }
+    }
+    let c1 = eng.connect();
+    let mut tags: Vec<String> = vec![];
+    for sym in &c.seq {
+        let line = C03_ALPHA[*sym].replace("{right}", &right).replace("{user}", &user);
+        let mut o = eng.line(c1, &line);
+        o.ctx = "REGLINE".into();
+        tags.extend(o.exp.tags.iter().cloned());
+        match judge(&pol, &eng, &o) {
+            Verdict::Violation(v) => return Err(v),
+            _ => {}
+        }
+        // the observer sees nothing and nothing changed: probe
+        for l in ["ISON n0 n1", "LUSERS", "WHOIS n1", "NAMES #c0"] {
+            let mut o = eng.line(0, l);
+            o.ctx = "REGLINE".into();
+            o.is_probe = true;
+            if let Verdict::Violation(v) = judge(&pol, &eng, &o) {
+                return Err(v);
+            }
+        }
+    }
+    let gated = tags.iter().filter(|t| *t == "gated").count();
+    let done = tags.iter().any(|t| t.starts_with("reg:"));
+    if done || gated >= 2 {
+        st.nontrivial(format!("cfg{}|{:?}", c.config, c.seq), || {
+            serde_json::json!({"config": c.config, "lines": c.seq.iter().map(|s| C03_ALPHA[*s]).collect::<Vec<_>>()})
+        });
+    }
+    Ok(())
+}
+
+pub fn run_c03(ctx: &RunCtx) -> Vec<PartOutcome> {
+    let mut parts = run_spec(ctx, &C03, 3_000, 50_000);
+    let l = ctx.tier.pick(4usize, 5usize);
+    let k = C03_ALPHA.len() as u64;
+    let per_cfg: u64 = (0..=l as u32).map(|i| k.pow(i)).sum();
+    parts.push(enumerate(
+        ctx,
+        "sequences_exhaustive",
+        per_cfg * 8,
+        |i| {
+            let config = (i / per_cfg) as usize;
+            let mut idx = i % per_cfg;
+            let mut len = 0u32;
+            let mut block = 1u64;
+            while idx >= block {
+                idx -= block;
+                block *= k;
+                len += 1;
+            }
+            let mut seq = vec![0usize; len as usize];
+            for j in (0..len as usize).rev() {
+                seq[j] = (idx % k) as usize;
+                idx /= k;
+            }
+            SeqCase { config, seq }
+        },
+        c03_seq_case,
+    ));
+    parts
+}
+
+pub fn replay_c03(part: &str, input: &Value) -> Option<Result<Result<(), Viol>, String>> {
+    match part {
+        "sequences_exhaustive" => Some(replay_input::<SeqCase>(input, c03_seq_case)),
+        _ => replay_spec(&C03, part, input),
+    }
+}
